@@ -146,3 +146,63 @@ fn k_drop_real_merge_pinned_vec() {
     }
     assert!(dl.n[0].get() == 1, "C13: after the result is dropped the element must have been dropped exactly once");
 }
+
+// ------------------------------------------------------------------------------------------
+// The REAL merge on the shapes the two-vector drop harnesses do not reach: ONE worker vector (the resolved thread count is
+// 1 for inputs of length 0 or 1 even with parallel parameters) and a non-empty output. C06: the previous contents stay in
+// front; C01: the merged elements follow in key order.
+
+fn one_vector(a: u8, b: u8) -> Vec<Vec<(usize, u8)>> {
+    let mut v0: Vec<(usize, u8)> = Vec::with_capacity(2);
+    v0.push((0, a));
+    v0.push((1, b));
+    let mut vs = Vec::with_capacity(1);
+    vs.push(v0);
+    vs
+}
+
+fn two_vectors(a: u8, b: u8) -> Vec<Vec<(usize, u8)>> {
+    let mut v0: Vec<(usize, u8)> = Vec::with_capacity(1);
+    v0.push((1, b));
+    let mut v1: Vec<(usize, u8)> = Vec::with_capacity(1);
+    v1.push((0, a));
+    let mut vs = Vec::with_capacity(2);
+    vs.push(v0);
+    vs.push(v1);
+    vs
+}
+
+macro_rules! merge_prefix_harness {
+    ($name:ident, $vectors:ident, vec) => {
+        #[kani::proof]
+        #[kani::unwind(6)]
+        fn $name() {
+            let (p, a, b): (u8, u8, u8) = (kani::any(), kani::any(), kani::any());
+            let mut out: Vec<u8> = Vec::with_capacity(4);
+            out.push(p);
+            crate::core::map_fil_col::heap_sort_into_vec($vectors(a, b), &mut out);
+            assert!(out.len() == 3, "C01,C06: the merge lost or invented an element, or dropped the previous contents of the output");
+            assert!(out[0] == p, "C06: the previous contents of the output were disturbed by the merge");
+            assert!(out[1] == a && out[2] == b, "C01,C06: the merged elements do not follow the previous contents in key order");
+        }
+    };
+    ($name:ident, $vectors:ident, pinned) => {
+        #[kani::proof]
+        #[kani::unwind(6)]
+        fn $name() {
+            use orx_pinned_vec::PinnedVec;
+            let (p, a, b): (u8, u8, u8) = (kani::any(), kani::any(), kani::any());
+            let mut out: orx_split_vec::SplitVec<u8> = orx_split_vec::SplitVec::new();
+            out.push(p);
+            crate::core::map_fil_col::heap_sort_into_pinned_vec($vectors(a, b), &mut out);
+            assert!(out.len() == 3, "C01,C06: the merge lost or invented an element, or dropped the previous contents of the output");
+            assert!(*out.get(0).unwrap() == p, "C06: the previous contents of the output were disturbed by the merge");
+            assert!(*out.get(1).unwrap() == a && *out.get(2).unwrap() == b, "C01,C06: the merged elements do not follow the previous contents in key order");
+        }
+    };
+}
+
+merge_prefix_harness!(k_merge_real_one_vector_prefix_vec, one_vector, vec);
+merge_prefix_harness!(k_merge_real_two_vectors_prefix_vec, two_vectors, vec);
+merge_prefix_harness!(k_merge_real_one_vector_prefix_pinned, one_vector, pinned);
+merge_prefix_harness!(k_merge_real_two_vectors_prefix_pinned, two_vectors, pinned);
